@@ -159,6 +159,25 @@ def check(ctx):
         ctx._record_violation(ob)
     else:
         ctx.undecided.append('%s: no result (rc=%s) %s' % (name, rc, (out + err)[-300:]))
+    # API-level check on documents generated from the specification: a repeated single-occurrence element is rejected in every order
+    # of the siblings (the call site of check_multiplicity in parse_element is not under contract)
+    nd = '3000000' if thorough else '400000'
+    rc, out, err, secs = run([b, 'api', 'dupes', nd], timeout=3000)
+    ctx.t('native-enum', secs)
+    line = (out.strip().splitlines() or [''])[-1]
+    name = 'native/api-repeated-single-occurrence'
+    bound = 'for every element type reached from ElementType::ROOT (2 versions each) and every sub-element with multiplicity One/ZeroOrOne in a Sequence/Choice container: documents with the children {A, B, B} in all three orders, A the nearest sub-element listed before resp. after B (budget %s documents)' % nd
+    if line.startswith('OK'):
+        ctx.add(Obligation(ctx.prop, name, 'native-eval', 'bounded', 'discharged', seconds=secs, bound=bound,
+                           detail='strict loading rejects every document with a repeated single-occurrence element, lenient loading warns, strict error == first lenient warning [%s]' % line))
+    elif line.startswith('FAIL'):
+        msg, _, dochex = line[5:].partition(' :: document ')
+        ob = ctx.add(Obligation(ctx.prop, name, 'native-eval', 'bounded', 'failed', seconds=secs, bound=bound, detail=msg))
+        ob.witness = dict(input_hex=dochex.strip(), input_text=bytes.fromhex(dochex.strip()).decode('utf-8', 'replace'), observed=msg, via='public API: AutosarModel::load_buffer(strict=true|false); oracle: multiplicities of the specification tables',
+                          replay=['api', 'mustfail1' if msg.startswith('strict loading accepts') else 'strictlenient1', dochex.strip()])
+        ctx._record_violation(ob)
+    else:
+        ctx.undecided.append('%s: no result (rc=%s) %s' % (name, rc, (out + err)[-300:]))
     return ctx.finish(
         explanation='The statement is a 2-safety property of the whole parser. Its mechanism is a single funnel: every recoverable finding goes through optional_error (directly or via check_version), the only reader of `strict`. Complete Kani harnesses discharge the contracts of optional_error, error and check_version (both modes, all masks, all versions). Frame conditions that need no solver are checked on the code text: `strict` is read only in optional_error, every funnel call propagates its Result with `?`, `warnings` is mutated only in optional_error. From these, "strict fails with the first lenient warning and both agree when there is none" follows by a non-interference argument that is NOT machine-checked. As a bounded stand-in for it, the public API is run strict and lenient on a corpus of defect documents and their single-byte mutations. Verus proves on the real text of find_element_in_spec_checked / check_element_conflict / check_multiplicity (unit elemcheck), against the lookup contracts that unit lookups proves, that strict mode never returns Ok for an element that is unknown or not available in the file version, for a second alternative of a choice group, or for a repeated single-occurrence element, and that the panic! in check_element_conflict is unreachable; unit valueparse does the same for values. Not covered: that parse_element calls these checks for every start tag with the right arguments (the recursion over the locked element graph is not under contract; the API-level checks stand in, bounded).',
         checker_cmd='cargo kani --harness funnel_optional_error --harness funnel_error --harness funnel_check_version; frame scan of parser.rs; vxnative api strictlenient <corpus> 1',
